@@ -37,12 +37,17 @@ class Users:
     """Real keys: A = init, B = add_key(shared=True) by A, C = add_key(shared=False)."""
 
     def __init__(self, encrypted=True):
+        # encrypted may be True, False, or 'h32' / 'sha256': encrypted with a non-default digest size (names and tags then
+        # have the length of the key's MAC, the digests that of the configured hash)
+        hashing = {'h32': {'name': 'blake2b', 'length': 32}, 'sha256': {'name': 'sha2', 'bits': 256}}.get(encrypted)
+        self.variant = encrypted
+        encrypted = bool(encrypted)
         self.encrypted = encrypted
         rt.determinism(1 if encrypted else 2)
         be = rt.MemBackend()
         a = Repository(be, concurrent=2, cache_directory=None)
         with rt.silence():
-            init = _run(a.init(password=b'pa', settings=rt.fast_settings(encrypted=encrypted)))
+            init = _run(a.init(password=b'pa', settings=rt.fast_settings(encrypted=encrypted, hashing=hashing)))
         self.config = be.objs['config']
         self.keys = {'A': init.key}
         self.pw = {'A': b'pa', 'B': b'pb', 'C': b'pc'}
@@ -403,6 +408,24 @@ def g_quick(k: int) -> bool:
         tick('g_quick', [owners, refs, orph, OPS[opi], prev, confirm])
         if not ok:
             _say(owners, refs, ORPHANS[orph], OPS[opi], msg)
+        return ok
+
+
+def g_hash(k: int) -> bool:
+    """The same state vectors in encrypted repositories whose hash is blake2b-256 or SHA-256 (digest size differs from the
+    size of the MAC that names the objects).
+    pre: shard(9 * 16 * 3 * 5)[0] <= k < shard(9 * 16 * 3 * 5)[1] and k % 3 == 0
+    post: _
+    """
+    oc, bits, orph, opi = digits(k, Q_RADICES)
+    with NoTracing():
+        owners = [OWNERS[oc % 3], OWNERS[oc // 3]]
+        refs = _refs_from_bits(bits, 2, 2)
+        variant = ['h32', 'sha256'][(oc + bits) % 2]
+        ok, msg = run_case(variant, 'A', owners, refs, ORPHANS[orph], OPS[opi])
+        tick('g_hash', [variant, owners, refs, orph, OPS[opi]])
+        if not ok:
+            _say(variant, owners, refs, ORPHANS[orph], OPS[opi], msg)
         return ok
 
 
